@@ -371,8 +371,13 @@ func c14Build(scenario int, mon *c14Mon, round int) (jobs []c14Job, finish []fun
 
 	switch scenario {
 	case 0: // shared *CharRecipe with requirements and custom sets
-		r := &spg.CharRecipe{Length: 12 + round%5, Allow: spg.Letters, Require: spg.Digits, RequireSets: []string{"!@", "357"}, ExcludeChars: "lO"}
+		// RequireSets with spare capacity, and policies that are prefixes of one backing array (a policy table)
+		sets := make([]string, 3, 6)
+		sets[0], sets[1], sets[2] = "!@", "357", "xyz"
+		r := &spg.CharRecipe{Length: 12 + round%5, Allow: spg.Letters, Require: spg.Digits, RequireSets: sets[:2], ExcludeChars: "lO", AllowChars: "+"}
 		jobs = append(jobs, charJob("shared *CharRecipe", func() spg.CharRecipe { return *r }, r))
+		r3 := &spg.CharRecipe{Length: 14 + round%3, Allow: spg.Lowers, RequireSets: sets[:3], AllowChars: "="}
+		jobs = append(jobs, charJob("shared *CharRecipe (longer prefix of the same RequireSets array)", func() spg.CharRecipe { return *r3 }, r3))
 		r2 := spg.NewCharRecipe(20 + round%7)
 		jobs = append(jobs, charJob("shared *CharRecipe (defaults)", func() spg.CharRecipe { return *r2 }, r2))
 	case 1: // a CharRecipe variable used by value from many goroutines (captured by reference)
@@ -403,16 +408,16 @@ func c14Build(scenario int, mon *c14Mon, round int) (jobs []c14Job, finish []fun
 		jobs = presetJobs()
 	case 5: // shared constructed separator function
 		sr := spg.CharRecipe{Length: 2 + round%2, AllowChars: "+=-", RequireSets: []string{"+="}}
-		sf := spg.NewSFFunction(sr)
-		valid := map[string]bool{"": true}
-		all, _ := oracle.CharSemOf(sr).EnumerateValid(1000)
-		for _, v := range all {
-			valid[v] = true
+		if round%2 == 1 { // class requirements as well
+			sr = spg.CharRecipe{Length: 3, Allow: spg.Lowers, Require: spg.Digits | spg.Symbols}
 		}
-		jobs = append(jobs, sepJob("constructed NewSFFunction", sf, func(s string) bool { return valid[s] }))
+		sf := spg.NewSFFunction(sr)
+		srSem := oracle.CharSemOf(sr)
+		validSep := func(s string) bool { return s == "" || srSem.Valid(oracle.Chars(s)) }
+		jobs = append(jobs, sepJob("constructed NewSFFunction", sf, validSep))
 		s := newWLShared("WLRecipe with shared constructed separator", words, 3, "random", "", "")
 		s.rec.SeparatorFunc = sf
-		s.sepOK = func(v string) bool { return valid[v] }
+		s.sepOK = validSep
 		jobs = append(jobs, wlJob(s))
 	case 6: // shipped lists: shared input slice, shared list
 		wlA, _ := spg.NewWordList(spg.AgileSyllables)
